@@ -409,9 +409,11 @@ defvjp(anp.repeat, grad_repeat)
 def grad_tile(ans, x, reps):
     reps = [reps] if anp.isscalar(reps) else reps
     x_shape = anp.shape(x)
+    # reps with fewer entries than x has axes belong to the trailing axes
+    first_axis = max(len(x_shape) - len(reps), 0)
 
     def vjp(g):
-        for axis, rep in enumerate(reps):
+        for axis, rep in enumerate(reps, first_axis):
             g = sum(anp.split(g, rep, axis))
         return anp.reshape(g, x_shape)
 
